@@ -52,6 +52,19 @@ def f_or(a, b):
     return ("or", a, b)
 
 
+def _walk_binds(p):
+    if not isinstance(p, dict):
+        return
+    if p.get("k") == "bind":
+        yield p
+    for q in p.get("pats") or []:
+        yield from _walk_binds(q)
+    if p.get("pat"):
+        yield from _walk_binds(p["pat"])
+    for f in p.get("fields") or []:
+        yield from _walk_binds(f.get("pat"))
+
+
 def atoms_of(f, out=None):
     out = out if out is not None else set()
     if f[0] == "atom":
@@ -357,6 +370,57 @@ class Extract:
         while p.get("k") == "pref":
             p = p["pat"]
         if p.get("k") == "pts" and (p.get("path") or "").endswith("::Some"):
+            # Some(x) = small_option_getter(..): read the getter's body in place of the call
+            i0 = peel(init)
+            if isinstance(i0, dict) and i0.get("k") in ("call", "mcall") and getattr(self, "_inl", 0) < 3:
+                hb = self.F.body_by_path.get(callee(i0))
+                if hb is not None and "body" in hb and not hb.get("exp") and \
+                        (hb.get("output") or "").startswith("std::option::Option<") and \
+                        isinstance(hb["body"], dict) and hb["body"].get("k") == "block" and \
+                        not hb["body"].get("stmts") and hb["body"].get("expr") is not None and \
+                        hb["body"]["expr"].get("k") not in ("if", "match", "loop", "while", "for"):
+                    fenv = {}
+                    args = list(i0.get("args") or [])
+                    if i0.get("k") == "mcall":
+                        args = [i0.get("recv")] + args
+                    ok = True
+                    for pp, a in zip(hb.get("params") or [], args):
+                        pl_ = self.place(a, env)
+                        if pp.get("k") != "bind" or not pl_:
+                            ok = False
+                            break
+                        fenv[pp["id"]] = ("place", pl_)
+                    if ok:
+                        self._inl = getattr(self, "_inl", 0) + 1
+                        try:
+                            f = self.letx({"k": "letx", "pat": pat, "init": hb["body"]["expr"]}, fenv)
+                        finally:
+                            self._inl -= 1
+                        for q in _walk_binds(pat):
+                            if q["id"] in fenv:
+                                env[q["id"]] = fenv[q["id"]]
+                        return f
+            # Some(x) = place.as_ref().map(|f| f.a.b): present iff place is, x is the projection
+            if isinstance(i0, dict) and i0.get("k") == "mcall" and i0.get("m") == "map" and i0.get("args") and \
+                    i0["args"][0].get("k") == "closure":
+                base = self.place(i0.get("recv"), env)
+                cl = i0["args"][0]
+                ps_ = cl.get("params") or []
+                if base and len(ps_) == 1:
+                    q0 = ps_[0]
+                    while isinstance(q0, dict) and q0.get("k") == "pref":
+                        q0 = q0["pat"]
+                    if isinstance(q0, dict) and q0.get("k") == "bind":
+                        e2 = dict(env)
+                        e2[q0["id"]] = ("place", base)
+                        proj = self.place(cl.get("body"), e2)
+                        if proj:
+                            inner = p["pats"][0] if p.get("pats") else None
+                            while isinstance(inner, dict) and inner.get("k") == "pref":
+                                inner = inner["pat"]
+                            if isinstance(inner, dict) and inner.get("k") == "bind":
+                                env[inner["id"]] = ("place", proj)
+                            return self.atom("P(%s)" % base)
             pl = self.place(init, env)
             self.bind_pat(p["pats"][0] if p.get("pats") else None, init, env)
             if pl:
@@ -442,17 +506,61 @@ class Extract:
             a = env.get(x["id"])
             if a and a[0] == "value":
                 return self.value_text(a[1], env)
+        if isinstance(x, dict) and x.get("k") in ("call", "mcall") and getattr(self, "_inl", 0) < 3:
+            # a small crate-local helper (no statements but lets, one result expression) reads as its body
+            hb = self.F.body_by_path.get(callee(x))
+            if hb is not None and "body" in hb and not hb.get("exp") and hb["kind"] in ("Fn", "AssocFn") \
+                    and (hb.get("output") or "") not in ("bool", "()") \
+                    and not (hb.get("output") or "").startswith(("std::result::Result<", "std::vec::Vec<")) \
+                    and hb["path"] not in getattr(self, "visiting", set()):
+                body = hb["body"]
+                stmts = body.get("stmts") or [] if isinstance(body, dict) and body.get("k") == "block" else None
+                if stmts is not None and all(s.get("k") == "let" for s in stmts) and body.get("expr") is not None \
+                        and body["expr"].get("k") not in ("if", "match", "loop", "while", "for") and len(stmts) <= 3:
+                    fenv = {}
+                    args = list(x.get("args") or [])
+                    if x.get("k") == "mcall":
+                        args = [x.get("recv")] + args
+                    ok = True
+                    for p, a in zip(hb.get("params") or [], args):
+                        if p.get("k") != "bind":
+                            ok = False
+                            break
+                        pl = self.place(a, env)
+                        fenv[p["id"]] = ("place", pl) if pl else ("value", a)
+                    if ok:
+                        # arguments that are values are rendered in the caller's environment first
+                        for k_, v_ in list(fenv.items()):
+                            if v_[0] == "value":
+                                fenv[k_] = ("place", self.value_text(v_[1], env))
+                        self._inl = getattr(self, "_inl", 0) + 1
+                        try:
+                            for s_ in stmts:
+                                self.do_let(s_, fenv)
+                            return self.value_text(body["expr"], fenv)
+                        finally:
+                            self._inl -= 1
         if isinstance(x, dict) and x.get("k") == "mcall" and x.get("m") in ("len", "count"):
             inner = self.value_text(x["recv"], env)
             return "len(%s)" % inner
         if isinstance(x, dict) and x.get("k") == "mcall" and x.get("m") in ("abs",):
             return "abs(%s)" % self.value_text(x["recv"], env)
-        if isinstance(x, dict) and x.get("k") == "bin" and x.get("op") in ("-", "+"):
+        if isinstance(x, dict) and x.get("k") == "bin" and x.get("op") in ("-", "+", "*", "/", "%"):
             return "(%s%s%s)" % (self.value_text(x["l"], env), x["op"], self.value_text(x["r"], env))
+        if isinstance(x, dict) and x.get("k") == "mcall" and x.get("m") in ("round", "floor", "ceil", "trunc", "powi",
+                                                                          "min", "max", "to_uppercase", "to_lowercase",
+                                                                          "trim", "trim_start", "trim_end"):
+            return "%s.%s(%s)" % (self.value_text(x["recv"], env), x["m"],
+                                  ",".join(self.value_text(a, env) for a in x.get("args") or []))
         if isinstance(x, dict) and x.get("k") == "index" and is_const_range(x.get("i")):
             return "%s[%s]" % (self.value_text(x["e"], env), text(x["i"]))
         if isinstance(x, dict) and x.get("k") == "mcall" and x.get("m") in ("filter", "map", "iter", "sum", "collect"):
             return "%s.%s(..)" % (self.value_text(x["recv"], env), x["m"])
+        if isinstance(x, dict) and x.get("k") == "call" and not x.get("ctor") and \
+                not any(isinstance(a, dict) and a.get("k") == "closure" for a in x.get("args") or []):
+            # arguments are rendered in this environment (helpers inlined, places resolved)
+            return "%s(%s)" % ((x.get("f") or "?").rsplit("::", 1)[-1],
+                               ",".join(self.value_text(a, env) for a in x.get("args") or []))
         return text(x)
 
     def compare(self, c, env):
